@@ -12,7 +12,7 @@ CONSTANTS
     RuleVariant = "repo"
     IndexGC = FALSE
     Impl = "repo"
-    Known = {"expired_barrier", "index_equal_ts", "index_ooo_unflushed", "ts_filter_before_barrier", "backward_stops_at_hidden_key"}
+    Known = {"expired_barrier", "index_ooo_unflushed"}
     MaxCommits = 3
     MaxFlushes = 2
     MaxCompactions = 1
